@@ -83,12 +83,53 @@ impl AsRef<Expression> for Expression {
     }
 }
 
+/// prints an operation sequence without converting its terms, so that expressions that
+/// still contain parameters, or that do not form a valid expression, can be displayed
+fn print_ops(ops: &[Op], symbols: &mut SymbolTable) -> Option<String> {
+    let mut stack: Vec<String> = Vec::new();
+
+    for op in ops {
+        match op {
+            Op::Value(term) => stack.push(term.to_string()),
+            Op::Unary(unary) => {
+                let value = stack.pop()?;
+                stack.push(unary.convert(symbols).print(value, symbols));
+            }
+            Op::Binary(binary) => {
+                let right = stack.pop()?;
+                let left = stack.pop()?;
+                stack.push(binary.convert(symbols).print(left, right, symbols));
+            }
+            Op::Closure(params, ops) => {
+                let body = print_ops(ops, symbols)?;
+                if params.is_empty() {
+                    stack.push(body);
+                } else {
+                    let params = params
+                        .iter()
+                        .map(|p| format!("${p}"))
+                        .collect::<Vec<_>>()
+                        .join(", ");
+                    stack.push(format!("{params} -> {body}"));
+                }
+            }
+        }
+    }
+
+    if stack.len() == 1 {
+        stack.pop()
+    } else {
+        None
+    }
+}
+
 impl fmt::Display for Expression {
     fn fmt(&self, f: &mut fmt::Formatter<'_>) -> fmt::Result {
         let mut syms = default_symbol_table();
-        let expr = self.convert(&mut syms);
-        let s = expr.print(&syms).unwrap();
-        write!(f, "{}", s)
+        match print_ops(&self.ops, &mut syms) {
+            Some(s) => write!(f, "{}", s),
+            None => write!(f, "<invalid expression: {:?}>", self.ops),
+        }
     }
 }
 
